@@ -54,7 +54,7 @@ int main(int argc, char** argv) {
             snaps("orig", sched);
             // apply the actions one after another on the same object
             auto inlined = blocks;
-            bool applied_ok = true;
+            bool applied_ok = true, exempt = false;
             for (const auto& app : sc["apps"]) {
                 const std::size_t n = app["n"];
                 const std::string name = app["action"];
@@ -64,6 +64,12 @@ int main(int argc, char** argv) {
                     Action::Result result{true};
                     result.wells(app["wells"].get<std::vector<std::string>>());
                     const auto& action = sched[n].actions()[name];
+                    // a COMPDAT in the body for a well whose connections are all shut meets the automatic shut-in of
+                    // report step n, which the action sees as already done and the inlined keyword prevents (set aside
+                    // by the property): the later states of such a history are not compared
+                    if (app.contains("compdat"))
+                        for (const auto& w : app["compdat"])
+                            if (sched.hasWell(w.get<std::string>(), n) && sched.getWell(w.get<std::string>(), n).getConnections().allConnectionsShut()) exempt = true;
                     // the simulator's current productivity index of every well (WELPI in an action body scales against it)
                     std::unordered_map<std::string, double> wellpi;
                     for (const auto& w : sched.wellNames(n)) wellpi[w] = CurrentPI;
@@ -83,7 +89,7 @@ int main(int argc, char** argv) {
                 tr.emit({{"e", "Build"}, {"run", "inlined"}, {"res", "ok"}, {"nsteps", sched2.size()}, {"appliedOk", applied_ok}});
                 // (a WELPI written in the deck is only completed later by the simulator, so with a WELPI application the
                 //  inlined schedule is built - it must be accepted - but its states are not compared)
-                if (applied_ok && !anyWelpi) snaps("inlined", sched2);
+                if (applied_ok && !anyWelpi && !exempt) snaps("inlined", sched2);
             } catch (const std::exception& e) {
                 tr.emit({{"e", "Build"}, {"run", "inlined"}, {"res", "error"}, {"appliedOk", applied_ok}, {"what", std::string(e.what()).substr(0, 200)}});
             }
